@@ -6,7 +6,7 @@ import ast
 from ..model import FST, ENFA, NFA, DFA, EPS_TAG
 from . import names
 from .common import site_of
-from .flow import (Oblig, calls, events, deps_of, arg_deps, SELF, P, result_locs, receivers, DELTA_SYM, DELTA_EPS)
+from .flow import (own, Oblig, calls, events, deps_of, arg_deps, SELF, P, result_locs, receivers, DELTA_SYM, DELTA_EPS)
 
 OTHER = P("other_fst")
 EXPLANATION = (
@@ -116,7 +116,7 @@ def run(eng, rep, tier):
     for t_, role in ((tag(SELF, ST), "start"), (tag(SELF, FI), "final"), (tag(SELF, DE), "edges"), (P("input_word"), "input")):
         ob.decide("R1", "C16.3", ft, "translate-depends-on-" + role, t_ in yd, "outputs depend on " + role,
                   "translate does not depend on " + role, st_, site=site_of(prog, ft, ft.node))
-    pushes = [ev for ev in st_.events if ev.kind == "write" and ev.wkind == "mutate:append" and ev.value is not None
+    pushes = [ev for ev in own(st_) if ev.kind == "write" and ev.wkind == "mutate:append" and ev.value is not None
               and ev.value.items is not None and len(ev.value.items) == 3]
     consume = [ev for ev in pushes if isinstance(ev.node, ast.Call) and isinstance(ev.node.args[0], ast.Tuple) and
                isinstance(ev.node.args[0].elts[0], ast.Subscript) and isinstance(ev.node.args[0].elts[0].slice, ast.Slice)]
